@@ -680,6 +680,23 @@ void StructAssignmentManager::assign_struct_member_array_element(
         adjusted_value = 0;
     }
 
+    // 型範囲チェック（スカラーメンバ・ローカル配列の要素代入と同じ規則。
+    // ポインタ配列はスキップ）
+    {
+        TypeInfo elem_type = member_var->type;
+        if (member_var->array_type_info.base_type != TYPE_UNKNOWN) {
+            elem_type = member_var->array_type_info.base_type;
+        } else if (elem_type >= TYPE_ARRAY_BASE) {
+            elem_type = static_cast<TypeInfo>(elem_type - TYPE_ARRAY_BASE);
+        }
+        if (elem_type != TYPE_POINTER && !member_var->is_pointer) {
+            interpreter_->type_manager_->check_type_range(
+                elem_type, adjusted_value,
+                target_full_name + "[" + std::to_string(index) + "]",
+                member_var->is_unsigned);
+        }
+    }
+
     member_var->array_values[index] = adjusted_value;
     member_var->is_assigned = true;
 
